@@ -36,7 +36,7 @@ def _body(rng, ints, writable, fn_in, fn_out, callees, allfuncs, nassert, want_l
         lhs = rng.sample(writable, len(f["out"])) if len(writable) >= len(f["out"]) else None
         # outputs overwriting the arguments of the same call, in the order of the arguments (any index order)
         if lhs is not None and len(f["out"]) == len(args) and len(set(args)) == len(args) and all(a_ in writable for a_ in args) \
-                and rng.random() < 0.4:
+                and rng.random() < 0.55:
             lhs = list(args)
         if lhs is None:
             return None
@@ -255,7 +255,7 @@ def program(rng, pid):
         nin = rng.choice([1, 1, 2, 2, 3])
         ins = rng.sample(ints, nin)
         free = [v for v in ints if v not in ins]
-        outs = rng.sample(free, 2 if (len(free) >= 2 and rng.random() < 0.35) else 1)
+        outs = rng.sample(free, 2 if (len(free) >= 2 and rng.random() < (0.55 if nin == 2 else 0.35)) else 1)
         funcs[name] = {"name": name, "in": ins, "out": outs}
     # call structure: main calls some; f_i calls f_j (j > i: DAG), plus optional recursion
     rec = rng.random() < 0.3
